@@ -866,7 +866,8 @@ class Task:
         Setter for predecessor tasks
         :param value: new predecessors
         """
-        value = _to_list(value)
+        # The same task listed twice is one dependency
+        value = _unique_tasks(_to_list(value))
         self._check_predecessors(value)
 
         for v in self.__predecessors:
@@ -919,7 +920,8 @@ class Task:
         Setter for direct successors
         :param value: new direct successors
         """
-        value = _to_list(value)
+        # The same task listed twice is one dependency
+        value = _unique_tasks(_to_list(value))
         self._check_successors(value)
 
         for v in self.__successors:
